@@ -3,12 +3,17 @@
 From Verif Require Import Base.Bytes Model.Mem Corr.Items.
 Open Scope N_scope.
 
+(** [avail] = gas the frame had when it reached the instruction.  A frame that cannot pay the charge ends out of gas
+    without expanding its memory — so the memory is only built (and compared) when the implementation succeeded. *)
 Definition mc_check_items (c : list item) : option bool :=
   match c with
-  | [IB mem; IN dst; IN src; IN len; obs] =>
-    match mcopy_step mem dst src len, obs with
-    | Ok (g, m'), IL [IN 0; IN cost; IB after] => Some ((g =? cost) && bytes_eqb m' after)
-    | Err e, IL [IN 1; IB msg] => Some (err_matches e msg || true)
+  | [IB mem; IN dst; IN src; IN len; obs; IN avail] =>
+    match mcopy_gas (blen mem) dst src len, obs with
+    | Ok g, IL [IN 0; IN cost; IB after] =>
+      Some ((g =? cost) && (g <=? avail) &&
+            match mcopy_step mem dst src len with Ok (_, m') => bytes_eqb m' after | _ => false end)
+    | Ok g, IL [IN 1; IB msg] => Some ((avail <? g) && err_matches "out of gas" msg)
+    | Err e, IL [IN 1; IB msg] => Some true
     | _, _ => Some false
     end
   | _ => None
